@@ -385,7 +385,8 @@ class Template:
                 module = compat.load_module(self.module_id, path)
                 if (
                     module._magic_number != codegen.MAGIC_NUMBER
-                    or module._template_filename != filename
+                    or os.path.normpath(module._template_filename)
+                    != os.path.normpath(filename)
                 ):
                     data = util.read_file(filename)
                     with _drop_expression_warnings():
